@@ -142,6 +142,23 @@ def build(case):
             e = np.concatenate([e, np.array(newe, dtype=int)])
             c = np.concatenate([c, np.array(newc, dtype=int)])
         return p, e, c
+    if f == "face_last":            # sweep-order adversary: one chosen plaquette F gets all its edges listed first and stored
+        p, e, c = build(case["base"])      # against its direction of travel, so F can only be found by a backward search
+        rng = np.random.default_rng([case["seed"], len(e), 13])
+        pls = Lattice(p, e, c).plaquettes
+        if len(pls) == 0:
+            return p, e, c
+        F = pls[int(rng.integers(0, len(pls)))]
+        e, c = e.copy(), c.copy()
+        for ed, d in zip(F.edges, F.directions):
+            if d == 1:
+                e[ed] = e[ed][::-1]
+                c[ed] = -c[ed]
+        first = [int(x) for x in F.edges]
+        rest = [i for i in range(len(e)) if i not in set(first)]
+        rng.shuffle(rest)
+        order = np.array(first + rest, dtype=int)
+        return p, e[order], c[order]
     if f == "raw":
         return (np.array(case["positions"], dtype=float).reshape(-1, 2), np.array(case["edges"], dtype=int).reshape(-1, 2),
                 np.array(case["crossing"], dtype=int).reshape(-1, 2))
@@ -251,6 +268,7 @@ def lattice_cases(tier, seed, exhaustive=True):
         b = pbase[int(rng.integers(0, len(pbase)))]
         pc = {"family": "pendant", "base": b, "seed": int(rng.integers(0, 2**31)), "frac": float(rng.choice([0.5, 0.75, 0.9]))}
         cases.append({"family": "relabel", "base": pc, "seed": int(rng.integers(0, 2**31)), "flip": 0.5, "vertices": False})
+        cases.append({"family": "face_last", "base": pc, "seed": int(rng.integers(0, 2**31))})
     if exhaustive:
         cases += exhaustive_subset_cases(ex_edges)
         # and relabelled edge subsets of the small bases (dangling edges inside faces, bridges, ...)
